@@ -304,6 +304,9 @@ func c09Run(f []string) string {
 		}
 		return ans + " tpl=" + HexS(tpl) + " spec=" + spec
 	}
+	if a, ok := c09R4Run(f); ok {
+		return a
+	}
 	return "bad-op"
 }
 
@@ -804,6 +807,8 @@ func c09Gen(r *Rand, tier string) []string {
 	}
 	// trees over the standard function table (print_compile_std_fragment)
 	out = append(out, c09FragCases(r, tier)...)
+	// round 4: recording context (which look-up, which index) and errors.go as the user sees it
+	out = append(out, c09R4Gen(r, tier)...)
 	return out
 }
 
@@ -813,6 +818,19 @@ func c09Stats(cases []string) map[string]int {
 		f := strings.Fields(c)
 		st["op."+f[0]]++
 		switch f[0] {
+		case "look":
+			t := string(UnHex(f[2]))
+			if len(t) > 2 && t[0] == '{' && !strings.ContainsAny(t[1:len(t)-1], "{} \t\"") {
+				st["look.loneWord"]++
+				if _, err := strconv.Atoi(t[1 : len(t)-1]); err == nil {
+					st["look.loneWord.integer"]++
+				}
+			}
+		case "cerr":
+			t := string(UnHex(f[2]))
+			if strings.Count(t, "{") != strings.Count(t, "}") {
+				st["cerr.unbalancedBraces"]++
+			}
 		case "tpl":
 			t := string(UnHex(f[2]))
 			if strings.ContainsAny(t, "\\") {
